@@ -10,6 +10,7 @@ use std::sync::{Arc, Mutex};
 static DROPS: Mutex<Option<HashMap<u64, u64>>> = Mutex::new(None);
 thread_local! { static LAST: Cell<u64> = Cell::new(0); }
 
+thread_local! { static CALLBACK_MODE: std::cell::Cell<u8> = std::cell::Cell::new(0); static NESTED: std::cell::Cell<u64> = std::cell::Cell::new(0); }
 struct Dbl { id: u64, fields: [u64; 6] }
 impl Dbl { fn new(id: u64) -> Dbl { Dbl { id, fields: [id; 6] } } }
 impl Drop for Dbl {
@@ -24,6 +25,20 @@ impl Recorder for Dbl {
         // "seen whole": every field must carry the id
         let whole = self.fields.iter().all(|f| *f == self.id);
         LAST.with(|l| l.set(if whole { self.id } else { u64::MAX }));
+        // scripted behaviour of the callback itself (global scripts only): 1 = panic after having
+        // been reached, 2 = emit again from inside the callback (the nested emission's target is
+        // left in NESTED)
+        match CALLBACK_MODE.with(|m| m.replace(0)) {
+            1 => panic!("recorder callback panics on purpose"),
+            2 => {
+                let outer = LAST.with(|l| l.get());
+                LAST.with(|l| l.set(0));
+                metrics::with_recorder(|rec| rec.describe_counter(KeyName::from_const_str("y"), None, SharedString::const_str("")));
+                NESTED.with(|n| n.set(LAST.with(|l| l.get())));
+                LAST.with(|l| l.set(outer));
+            }
+            _ => {}
+        }
     }
     fn describe_gauge(&self, _: KeyName, _: Option<Unit>, _: SharedString) {}
     fn describe_histogram(&self, _: KeyName, _: Option<Unit>, _: SharedString) {}
@@ -181,6 +196,8 @@ fn own_site(site: u32) -> bool { (201..=205).contains(&site) }
 // set_default_local_recorder guard) with one emission inside it, l<r> = the same on ONE persistent
 // worker thread, e = emit on that worker (a thread that scoped locally before the global install
 // must follow the global recorder afterwards like any other),
+// X = an emission whose recorder callback panics after being reached (the panic is caught; token as
+// for E), N = an emission whose callback emits again from inside (token V<outer>/<nested target>),
 // U<r> = install recorder r from a destructor that runs while a fresh thread is unwinding from a
 // panic, D = emit from such a destructor (the calling context must make no difference).
 // Output tokens: K<r> | X<r>[!x] (Ok / Err handing r back) | V<r> | N | P<number of emissions that did not reach the winner>.
@@ -229,6 +246,20 @@ fn global_script(ops: &str) -> String {
             "J" => { let r: u64 = rest.parse().unwrap(); std::thread::spawn(move || global_install(r)).join().unwrap() }
             "E" => global_emit(),
             "F" => std::thread::spawn(global_emit).join().unwrap(),
+            "X" => {
+                CALLBACK_MODE.with(|m| m.set(1));
+                let _ = std::panic::catch_unwind(|| { let _ = global_emit(); });
+                CALLBACK_MODE.with(|m| m.set(0));
+                let id = LAST.with(|l| l.get());
+                if id == 0 { "N".to_string() } else { format!("V{}", id) }
+            }
+            "N" => {
+                CALLBACK_MODE.with(|m| m.set(2));
+                NESTED.with(|n| n.set(0));
+                let t = global_emit();
+                CALLBACK_MODE.with(|m| m.set(0));
+                if t == "N" { t } else { format!("{}/{}", t, NESTED.with(|n| n.get())) }
+            }
             "L" => local_scope(rest.parse().unwrap(), false),
             "G" => local_scope(rest.parse().unwrap(), true),
             "l" => { wtx.send(Some(rest.parse().unwrap())).unwrap(); rrx.recv().unwrap() }
